@@ -905,7 +905,7 @@ func runC18(c *run.Ctx, s *kit.Summary) {
 	// first record of its kind)
 	raceRuns(c, s, []string{"D", "C", "DC", "CD"})
 
-	// defect witness replayed first (DESIGN §8 #12): a dual-stack name with two addresses per family
+	// former defect witness (DESIGN §8 #12, fixed by da2a0f6) replayed first as a regression guard: a dual-stack name with two addresses per family
 	{
 		h := &history{Config: "D", Workers: 1, Succeed: "none", Tag: "witness",
 			Hosts: []hostSpec{{Name: "dual.witness.c18.test", IPs: []string{"10.0.0.1", "10.0.0.2", "2001:db8::1", "2001:db8::2"}}}}
